@@ -155,6 +155,29 @@ pub fn check_leap(c: &LeapCase, st: &mut Stats) -> Result<(), String> {
                 let mz = if to == 0 { MZone { types: vec![cest.clone(), cet.clone()], trans: vec![(t_cnt as i64, 1)], ..mz } } else { mz };
                 let zone = mz.to_tz().map_err(|e| format!("junction probe zone refused (leaps {:?}, y={y}): {e:?}", c.leaps))?;
                 let zr = zone.as_ref();
+                // the forward lookup switches exactly at u_t (the instant the recorded count denotes)
+                let want_after_dst = to == 1 && mz.types.len() == 2 && mz.types[1].dst || (to == 0 && false);
+                let _ = want_after_dst;
+                for (u, after) in [(u_t - 1, false), (u_t, true), (u_t + 1, true)] {
+                    let l = zr.find_local_time_type(u).map_err(|e| format!("junction probe: lookup at {u}: {e:?}"))?;
+                    // before the transition: the zone's first type; from it on: the type the transition (and the rule) prescribe
+                    let exp_dst = if after { to == 1 } else { to != 1 };
+                    if l.is_dst() != exp_dst {
+                        return Err(format!("leaps {:?}: zone with table transition at count {t_cnt} (UTC {u_t}) + DST rule: lookup at u={u} gives is_dst={} but the transition takes effect exactly at {u_t}", c.leaps, l.is_dst()));
+                    }
+                }
+                // the rule-generated forward transition that follows: its gap must be reported at the rule's own UTC instant
+                let next_s = if to == 1 { eu.s(y + 1) } else { eu.s(y + 1) };
+                {
+                    let lcl = next_s + 3600 + 1800; // 02:30 local standard time: inside the gap
+                    let cv = cal::civil_from_unix(lcl as i128);
+                    let v = DateTime::find(cv.y as i32, cv.mo as u8, cv.d as u8, cv.h as u8, cv.mi as u8, cv.s as u8, 0, zr).map_err(|e| format!("junction probe: find failed: {e:?}"))?.into_inner();
+                    match v.as_slice() {
+                        [FoundDateTimeKind::Skipped { before_transition, after_transition }] if before_transition.unix_time() == next_s && after_transition.unix_time() == next_s => {}
+                        other => return Err(format!("leaps {:?}: zone with a leap table and the EU rule: local {cv:?} lies in the rule-generated gap at UTC {next_s}, search returned {other:?}", c.leaps)),
+                    }
+                    st.eval(1);
+                }
                 for d in (-30i64..=30).chain([-3600, 3600, -7200, 7200]) {
                     st.eval(1);
                     let u = u_t + d;
